@@ -17,15 +17,19 @@ import (
 	"io"
 	"math"
 	"math/rand"
+	"os"
 	"reflect"
 	"sort"
 	"strconv"
 	"strings"
 	"time"
+	"unsafe"
 
+	"github.com/google/uuid"
 	"github.com/parquet-go/parquet-go"
 	"github.com/parquet-go/parquet-go/deprecated"
 	"github.com/parquet-go/parquet-go/format"
+	"github.com/parquet-go/parquet-go/variant"
 
 	"verif/harness/core"
 )
@@ -36,7 +40,7 @@ func main() { core.Main("C03", runC03, replayC03) }
 // catalogue entries
 // ---------------------------------------------------------------------------
 
-const numPaths = 11
+const numPaths = 14
 
 // paths whose rows come back in reverse order (the buffer is reversed through Swap before it is read)
 var reversedPath = [numPaths]bool{9: true, 10: true}
@@ -53,6 +57,9 @@ var pathNames = [numPaths]string{
 	"9:GenericWriter[any].Write",
 	"10:GenericBuffer[T].Write, rows reversed through Swap",
 	"11:Buffer.Write(any), rows reversed through Swap",
+	"12:GenericWriter[*T].Write",
+	"13:GenericBuffer[*T].Write",
+	"14:GenericBuffer[any].Write",
 }
 
 type pathResult struct {
@@ -64,9 +71,17 @@ type pathResult struct {
 type cat struct {
 	name      string
 	typ       reflect.Type
-	multimap  bool // maps with several entries: Deconstruct's order is random
-	longLists bool // lists long enough to cross 64-element words
-	noDeep    bool // skip reflect.DeepEqual (time.Time)
+	multimap  bool   // maps with several entries: Deconstruct's order is random
+	longLists bool   // lists long enough to cross 64-element words
+	hugeLists bool   // now and then a list of more than 1024 elements
+	noDeep    bool   // skip reflect.DeepEqual (time.Time)
+	noRecon   bool   // Reconstruct is not compared (interface-typed fields, lossy logical types)
+	dyn       bool   // the type has interface-typed fields: replays use the typed codec
+	nodeGen   bool   // values are generated along the schema (interface fields, constrained leaves)
+	explicit  bool   // the schema is handed to every constructor (it is not SchemaOf(T), or T has interface fields)
+	typedW    bool   // GenericWriter[T] / GenericWriter[*T] take the typed path (schema equal to SchemaOf(T))
+	perType   int    // batches per type in the quick tier (0 = default)
+	broken    string // SchemaOf(T) panicked
 	schema    *parquet.Schema
 	mschema   string   // schema in the model's syntax
 	coqSchema string   // the same as a Coq term
@@ -79,15 +94,43 @@ type catOpt func(*cat)
 
 func multimap(c *cat)  { c.multimap = true }
 func longLists(c *cat) { c.longLists = true }
+func hugeLists(c *cat) { c.hugeLists = true }
 func noDeep(c *cat)    { c.noDeep = true }
+func noRecon(c *cat)   { c.noRecon = true }
+func dyn(c *cat)       { c.dyn, c.noRecon, c.nodeGen = true, true, true }
+func nodeGen(c *cat)   { c.nodeGen = true }
+func few(n int) catOpt { return func(c *cat) { c.perType = n } }
 
+// mk: the schema is SchemaOf(T); no constructor is given a schema (typed regime)
 func mk[T any](name string, opts ...catOpt) *cat {
+	return mkx[T](name, nil, opts...)
+}
+
+// mkx: T written with an explicit schema, handed to every constructor.
+// GenericBuffer[T] / GenericBuffer[*T] always take the typed path
+// (writeRowsFuncOf on the explicit schema); GenericWriter[T] / [*T] take it
+// only when the schema equals SchemaOf(T) (EqualNodes) and otherwise write each
+// row through the reflection value writer (writeValueFuncOf).
+func mkx[T any](name string, schema *parquet.Schema, opts ...catOpt) (c *cat) {
 	var zero T
-	c := &cat{name: name, typ: reflect.TypeOf(zero)}
+	c = &cat{name: name, typ: reflect.TypeOf(zero)}
 	for _, o := range opts {
 		o(c)
 	}
-	c.schema = parquet.SchemaOf(zero)
+	defer func() {
+		// SchemaOf panicking on a catalogue type: reported by the run, the type is skipped
+		if r := recover(); r != nil {
+			c.broken = fmt.Sprintf("%v", r)
+		}
+	}()
+	if schema == nil {
+		c.schema = parquet.SchemaOf(zero)
+		c.typedW = true
+	} else {
+		c.schema = schema
+		c.explicit = true
+		c.typedW = parquet.EqualNodes(schema, parquet.SchemaOf(zero))
+	}
 	c.mschema = modelSchema(c.schema)
 	c.coqSchema = coqSchema(c.schema)
 	for _, p := range c.schema.Columns() {
@@ -95,7 +138,7 @@ func mk[T any](name string, opts ...catOpt) *cat {
 		c.maxLevels = append(c.maxLevels, fmt.Sprintf("%d:%d", l.MaxRepetitionLevel, l.MaxDefinitionLevel))
 	}
 	c.exec = func(rows reflect.Value, split []int) [numPaths]pathResult {
-		return execPaths[T](c.schema, rows.Interface().([]T), split)
+		return execPaths[T](c, rows.Interface().([]T), split)
 	}
 	c.recon = func(row parquet.Row) (reflect.Value, error) {
 		var back T
@@ -236,9 +279,16 @@ func batches(n int, split []int) [][2]int {
 	return out
 }
 
-func execPaths[T any](schema *parquet.Schema, rows []T, split []int) (res [numPaths]pathResult) {
+func execPaths[T any](ct *cat, rows []T, split []int) (res [numPaths]pathResult) {
+	schema := ct.schema
 	n := len(rows)
 	bs := batches(n, split)
+	var wopts []parquet.WriterOption
+	var ropts []parquet.RowGroupOption
+	if ct.explicit {
+		wopts = []parquet.WriterOption{schema}
+		ropts = []parquet.RowGroupOption{schema}
+	}
 	// 1: Schema.Deconstruct
 	res[0] = guardPath(0, func() ([]parquet.Row, error) {
 		out := make([]parquet.Row, n)
@@ -254,7 +304,7 @@ func execPaths[T any](schema *parquet.Schema, rows []T, split []int) (res [numPa
 	// 2: typed GenericWriter
 	res[1] = guardPath(1, func() ([]parquet.Row, error) {
 		var buf bytes.Buffer
-		w := parquet.NewGenericWriter[T](&buf)
+		w := parquet.NewGenericWriter[T](&buf, wopts...)
 		for _, b := range bs {
 			if k, err := w.Write(rows[b[0]:b[1]]); err != nil || k != b[1]-b[0] {
 				return nil, fmt.Errorf("Write returned %d, %v", k, err)
@@ -287,7 +337,7 @@ func execPaths[T any](schema *parquet.Schema, rows []T, split []int) (res [numPa
 	})
 	// 4: typed GenericBuffer
 	res[3] = guardPath(3, func() ([]parquet.Row, error) {
-		buf := parquet.NewGenericBuffer[T]()
+		buf := parquet.NewGenericBuffer[T](ropts...)
 		for _, b := range bs {
 			if k, err := buf.Write(rows[b[0]:b[1]]); err != nil || k != b[1]-b[0] {
 				return nil, fmt.Errorf("Write returned %d, %v", k, err)
@@ -313,7 +363,7 @@ func execPaths[T any](schema *parquet.Schema, rows []T, split []int) (res [numPa
 	})
 	// 6: RowBuffer
 	res[5] = guardPath(5, func() ([]parquet.Row, error) {
-		buf := parquet.NewRowBuffer[T]()
+		buf := parquet.NewRowBuffer[T](ropts...)
 		for _, b := range bs {
 			if k, err := buf.Write(rows[b[0]:b[1]]); err != nil || k != b[1]-b[0] {
 				return nil, fmt.Errorf("Write returned %d, %v", k, err)
@@ -328,7 +378,7 @@ func execPaths[T any](schema *parquet.Schema, rows []T, split []int) (res [numPa
 			return nil, fmt.Errorf("no deconstructed rows")
 		}
 		var buf bytes.Buffer
-		w := parquet.NewGenericWriter[T](&buf)
+		w := parquet.NewGenericWriter[T](&buf, wopts...)
 		for _, b := range bs {
 			in := make([]parquet.Row, 0, b[1]-b[0])
 			for _, r := range base[b[0]:b[1]] {
@@ -349,7 +399,7 @@ func execPaths[T any](schema *parquet.Schema, rows []T, split []int) (res [numPa
 			return nil, fmt.Errorf("no deconstructed rows")
 		}
 		var buf bytes.Buffer
-		w := parquet.NewGenericWriter[T](&buf)
+		w := parquet.NewGenericWriter[T](&buf, wopts...)
 		ncols := len(schema.Columns())
 		cols := make([][]parquet.Value, ncols)
 		for _, r := range base {
@@ -402,7 +452,7 @@ func execPaths[T any](schema *parquet.Schema, rows []T, split []int) (res [numPa
 	// Swap (sort.Interface) before they are read: the row -> value bookkeeping
 	// of the column buffers must describe the rows that were written
 	res[9] = guardPath(9, func() ([]parquet.Row, error) {
-		buf := parquet.NewGenericBuffer[T]()
+		buf := parquet.NewGenericBuffer[T](ropts...)
 		for _, b := range bs {
 			if k, err := buf.Write(rows[b[0]:b[1]]); err != nil || k != b[1]-b[0] {
 				return nil, fmt.Errorf("Write returned %d, %v", k, err)
@@ -426,6 +476,52 @@ func execPaths[T any](schema *parquet.Schema, rows []T, split []int) (res [numPa
 		}
 		for i, j := 0, n-1; i < j; i, j = i+1, j-1 {
 			buf.Swap(i, j)
+		}
+		return readAll(buf.Rows())
+	})
+	ptrs := make([]*T, n)
+	for i := range rows {
+		ptrs[i] = &rows[i]
+	}
+	// 12: GenericWriter[*T]: the rows are pointers
+	res[11] = guardPath(11, func() ([]parquet.Row, error) {
+		var buf bytes.Buffer
+		w := parquet.NewGenericWriter[*T](&buf, wopts...)
+		for _, b := range bs {
+			if k, err := w.Write(ptrs[b[0]:b[1]]); err != nil || k != b[1]-b[0] {
+				return nil, fmt.Errorf("Write returned %d, %v", k, err)
+			}
+		}
+		if err := w.Close(); err != nil {
+			return nil, err
+		}
+		return readFile(buf.Bytes())
+	})
+	// 13: GenericBuffer[*T]
+	res[12] = guardPath(12, func() ([]parquet.Row, error) {
+		buf := parquet.NewGenericBuffer[*T](ropts...)
+		for _, b := range bs {
+			if k, err := buf.Write(ptrs[b[0]:b[1]]); err != nil || k != b[1]-b[0] {
+				return nil, fmt.Errorf("Write returned %d, %v", k, err)
+			}
+		}
+		return readAll(buf.Rows())
+	})
+	// 14: GenericBuffer[any] with the schema (rows alternately by value and by pointer)
+	res[13] = guardPath(13, func() ([]parquet.Row, error) {
+		buf := parquet.NewGenericBuffer[any](schema)
+		for _, b := range bs {
+			in := make([]any, 0, b[1]-b[0])
+			for i := b[0]; i < b[1]; i++ {
+				if i%2 == 1 {
+					in = append(in, rows[i])
+				} else {
+					in = append(in, &rows[i])
+				}
+			}
+			if k, err := buf.Write(in); err != nil || k != len(in) {
+				return nil, fmt.Errorf("Write returned %d, %v", k, err)
+			}
 		}
 		return readAll(buf.Rows())
 	})
@@ -709,7 +805,11 @@ func structFieldRefs(t reflect.Type, prefix []int) []fieldRef {
 		}
 		idx := append(append([]int(nil), prefix...), i)
 		if f.Anonymous {
-			out = append(out, structFieldRefs(f.Type, idx)...)
+			ft := f.Type
+			if ft.Kind() == reflect.Pointer {
+				ft = ft.Elem()
+			}
+			out = append(out, structFieldRefs(ft, idx)...)
 		} else if f.IsExported() {
 			out = append(out, fieldRef{name: name, index: idx})
 		}
@@ -747,21 +847,88 @@ func goNull(v reflect.Value) bool {
 	}
 }
 
+// daysSinceEpoch mirrors the library's DATE conversion of time.Time
+// (convert.go daysSinceUnixEpoch): whole hours since the epoch divided by 24.
+func daysSinceEpoch(t time.Time) int32 {
+	return int32(int(t.Sub(time.Unix(0, 0).UTC()).Hours()) / 24)
+}
+
+// jsonBytes is the documented encoding of a Go value in a JSON column:
+// encoding/json without HTML escaping, without the trailing newline.
+func jsonBytes(x any) []byte {
+	var sb bytes.Buffer
+	enc := json.NewEncoder(&sb)
+	enc.SetEscapeHTML(false)
+	if err := enc.Encode(x); err != nil {
+		panic(err)
+	}
+	b := sb.Bytes()
+	return append([]byte{}, b[:len(b)-1]...)
+}
+
+func le32(x uint32) []byte { return binary.LittleEndian.AppendUint32(nil, x) }
+func le64(x uint64) []byte { return binary.LittleEndian.AppendUint64(nil, x) }
+
+// leafBytes is the value of leaf n for the Go value v: the plain encoding of
+// the parquet value the documentation assigns to v for the physical and
+// logical type of n.
 func leafBytes(n parquet.Node, v reflect.Value) []byte {
-	for v.Kind() == reflect.Pointer {
+	for v.Kind() == reflect.Pointer || v.Kind() == reflect.Interface {
 		v = v.Elem()
 	}
-	if t, ok := v.Interface().(time.Time); ok {
-		return binary.LittleEndian.AppendUint64(nil, uint64(t.UnixNano()))
+	typ := n.Type()
+	kind := typ.Kind()
+	var lt any
+	if l := typ.LogicalType(); l != nil {
+		lt = l.Value
 	}
-	if x, ok := v.Interface().(deprecated.Int96); ok {
+	switch x := v.Interface().(type) {
+	case time.Time:
+		switch l := lt.(type) {
+		case *format.TimestampType:
+			switch l.Unit.Value.(type) {
+			case *format.MilliSeconds:
+				return le64(uint64(x.UnixMilli()))
+			case *format.MicroSeconds:
+				return le64(uint64(x.UnixMicro()))
+			}
+			return le64(uint64(x.UnixNano()))
+		case *format.DateType:
+			return le32(uint32(daysSinceEpoch(x)))
+		}
+		if kind == parquet.Int32 {
+			return le32(uint32(daysSinceEpoch(x)))
+		}
+		return le64(uint64(x.UnixNano()))
+	case time.Duration:
+		if l, ok := lt.(*format.TimeType); ok {
+			switch l.Unit.Value.(type) {
+			case *format.MilliSeconds:
+				return le32(uint32(int32(x.Milliseconds())))
+			case *format.MicroSeconds:
+				return le64(uint64(x.Microseconds()))
+			}
+		}
+		return le64(uint64(x.Nanoseconds()))
+	case deprecated.Int96:
 		b := make([]byte, 12)
 		binary.LittleEndian.PutUint32(b[0:], x[0])
 		binary.LittleEndian.PutUint32(b[4:], x[1])
 		binary.LittleEndian.PutUint32(b[8:], x[2])
 		return b
+	case parquet.Interval:
+		b := make([]byte, 12)
+		binary.LittleEndian.PutUint32(b[0:], x.Months)
+		binary.LittleEndian.PutUint32(b[4:], x.Days)
+		binary.LittleEndian.PutUint32(b[8:], x.Milliseconds)
+		return b
+	case json.RawMessage:
+		return append([]byte{}, x...)
 	}
-	kind := n.Type().Kind()
+	isBytes := v.Kind() == reflect.String || (v.Kind() == reflect.Slice && v.Type().Elem().Kind() == reflect.Uint8)
+	if _, ok := lt.(*format.JsonType); ok && !isBytes {
+		return jsonBytes(v.Interface())
+	}
 	switch v.Kind() {
 	case reflect.Bool:
 		if v.Bool() {
@@ -770,19 +937,29 @@ func leafBytes(n parquet.Node, v reflect.Value) []byte {
 		return []byte{0}
 	case reflect.Int, reflect.Int8, reflect.Int16, reflect.Int32, reflect.Int64:
 		if kind == parquet.Int32 {
-			return binary.LittleEndian.AppendUint32(nil, uint32(int32(v.Int())))
+			return le32(uint32(int32(v.Int())))
 		}
-		return binary.LittleEndian.AppendUint64(nil, uint64(v.Int()))
-	case reflect.Uint, reflect.Uint8, reflect.Uint16, reflect.Uint32, reflect.Uint64:
+		return le64(uint64(v.Int()))
+	case reflect.Uint, reflect.Uint8, reflect.Uint16, reflect.Uint32, reflect.Uint64, reflect.Uintptr:
 		if kind == parquet.Int32 {
-			return binary.LittleEndian.AppendUint32(nil, uint32(v.Uint()))
+			return le32(uint32(v.Uint()))
 		}
-		return binary.LittleEndian.AppendUint64(nil, v.Uint())
+		return le64(v.Uint())
 	case reflect.Float32:
-		return binary.LittleEndian.AppendUint32(nil, math.Float32bits(float32(v.Float())))
+		if kind == parquet.Double {
+			return le64(math.Float64bits(v.Float()))
+		}
+		return le32(math.Float32bits(float32(v.Float())))
 	case reflect.Float64:
-		return binary.LittleEndian.AppendUint64(nil, math.Float64bits(v.Float()))
+		return le64(math.Float64bits(v.Float()))
 	case reflect.String:
+		if _, ok := lt.(*format.UUIDType); ok && kind == parquet.FixedLenByteArray {
+			u, err := uuid.Parse(v.String())
+			if err != nil {
+				panic("leafBytes: the generator produced an invalid UUID string " + v.String())
+			}
+			return append([]byte{}, u[:]...)
+		}
 		return []byte(v.String())
 	case reflect.Slice:
 		return append([]byte{}, v.Bytes()...)
@@ -810,42 +987,102 @@ func keyLess(a, b reflect.Value) bool {
 	return fmt.Sprint(a.Interface()) < fmt.Sprint(b.Interface())
 }
 
+func isVariantNode(n parquet.Node) bool {
+	lt := n.Type().LogicalType()
+	if lt == nil {
+		return false
+	}
+	_, ok := lt.Value.(*format.VariantType)
+	return ok
+}
+
+// unwrap replaces an interface value by what it holds (invalid for nil); dyn
+// tells that the value came out of an interface
+func unwrap(v reflect.Value, dyn bool) (reflect.Value, bool) {
+	for v.IsValid() && v.Kind() == reflect.Interface {
+		if v.IsNil() {
+			return reflect.Value{}, true
+		}
+		v, dyn = v.Elem(), true
+	}
+	return v, dyn
+}
+
+// isNullAt: is the Go value null at an optional node.  Statically typed
+// fields: the documented rule (goNull).  Values held by an interface: null is
+// the nil interface (or a nil pointer / slice / map in it) - an interface
+// distinguishes "no value" from a zero value like a pointer does.
+func isNullAt(v reflect.Value, dyn bool) bool {
+	if !v.IsValid() {
+		return true
+	}
+	if !dyn {
+		return goNull(v)
+	}
+	switch v.Kind() {
+	case reflect.Pointer, reflect.Slice, reflect.Map:
+		return v.IsNil()
+	}
+	return false
+}
+
 // mField maps the Go value of a field to the model value of the field
-func mField(f parquet.Node, v reflect.Value) *mv {
+func mField(f parquet.Node, v reflect.Value) *mv { return mFieldD(f, v, false) }
+
+func mFieldD(f parquet.Node, v reflect.Value, dyn bool) *mv {
+	v, dyn = unwrap(v, dyn)
 	switch {
 	case f.Optional():
-		if !v.IsValid() || goNull(v) {
+		if isNullAt(v, dyn) {
 			return &mv{kind: 'n'}
 		}
-		return &mv{kind: 's', kids: []*mv{mValue(f, v)}}
+		return &mv{kind: 's', kids: []*mv{mValueD(f, v, dyn)}}
 	case f.Repeated():
 		out := &mv{kind: 'l'}
-		for v.Kind() == reflect.Pointer && !v.IsNil() {
+		for v.IsValid() && v.Kind() == reflect.Pointer && !v.IsNil() {
 			v = v.Elem()
 		}
-		if v.Kind() == reflect.Slice {
+		if v.IsValid() && (v.Kind() == reflect.Slice || v.Kind() == reflect.Array) {
 			for i := 0; i < v.Len(); i++ {
-				out.kids = append(out.kids, mValue(f, v.Index(i)))
+				out.kids = append(out.kids, mValueD(f, v.Index(i), dyn))
 			}
 		}
 		return out
 	default:
-		return mValue(f, v)
+		return mValueD(f, v, dyn)
 	}
 }
 
 // mValue maps a present Go value to the model value of node n (its repetition
 // type already accounted for by the caller)
-func mValue(n parquet.Node, v reflect.Value) *mv {
-	for v.Kind() == reflect.Pointer {
+func mValue(n parquet.Node, v reflect.Value) *mv { return mValueD(n, v, false) }
+
+func mValueD(n parquet.Node, v reflect.Value, dyn bool) *mv {
+	v, dyn = unwrap(v, dyn)
+	for v.IsValid() && v.Kind() == reflect.Pointer {
 		if v.IsNil() {
 			// a nil pointer where the schema has no optional node: the zero value
 			v = reflect.Zero(v.Type().Elem())
 			break
 		}
 		v = v.Elem()
+		v, dyn = unwrap(v, dyn)
+	}
+	if isVariantNode(n) && len(n.Fields()) == 2 {
+		var goVal any
+		if v.IsValid() && !isNullAt(v, true) {
+			goVal = v.Interface()
+		}
+		meta, val, err := variant.Marshal(goVal)
+		if err != nil {
+			panic(fmt.Sprintf("mValue: variant.Marshal(%v): %v", goVal, err))
+		}
+		return &mv{kind: 'g', kids: []*mv{{kind: 'x', hex: hex.EncodeToString(meta)}, {kind: 'x', hex: hex.EncodeToString(val)}}}
 	}
 	if n.Leaf() {
+		if !v.IsValid() {
+			panic("mValue: nil value at a required leaf (the generator must not produce it)")
+		}
 		return &mv{kind: 'x', hex: hex.EncodeToString(leafBytes(n, v))}
 	}
 	switch {
@@ -853,8 +1090,10 @@ func mValue(n parquet.Node, v reflect.Value) *mv {
 		rep := n.Fields()[0]
 		elem := rep.Fields()[0]
 		l := &mv{kind: 'l'}
-		for i := 0; i < v.Len(); i++ {
-			l.kids = append(l.kids, &mv{kind: 'g', kids: []*mv{mField(elem, v.Index(i))}})
+		if v.IsValid() {
+			for i := 0; i < v.Len(); i++ {
+				l.kids = append(l.kids, &mv{kind: 'g', kids: []*mv{mFieldD(elem, v.Index(i), dyn)}})
+			}
 		}
 		return &mv{kind: 'g', kids: []*mv{l}}
 	case isMapNode(n):
@@ -867,27 +1106,61 @@ func mValue(n parquet.Node, v reflect.Value) *mv {
 				vn = f
 			}
 		}
-		keys := v.MapKeys()
-		sort.Slice(keys, func(i, j int) bool { return keyLess(keys[i], keys[j]) })
 		l := &mv{kind: 'l'}
-		for _, k := range keys {
-			l.kids = append(l.kids, &mv{kind: 'g', kids: []*mv{mField(kn, k), mField(vn, v.MapIndex(k))}})
+		if v.IsValid() {
+			keys := v.MapKeys()
+			sort.Slice(keys, func(i, j int) bool { return keyLess(keys[i], keys[j]) })
+			for _, k := range keys {
+				l.kids = append(l.kids, &mv{kind: 'g', kids: []*mv{mFieldD(kn, k, dyn), mFieldD(vn, v.MapIndex(k), dyn)}})
+			}
 		}
 		return &mv{kind: 'g', kids: []*mv{l}}
 	}
-	refs := structFieldRefs(v.Type(), nil)
 	fields := n.Fields()
-	if len(refs) != len(fields) {
-		panic(fmt.Sprintf("mValue: %v has %d fields, node has %d", v.Type(), len(refs), len(fields)))
-	}
 	g := &mv{kind: 'g'}
-	for i, f := range fields {
-		if f.Name() != refs[i].name {
-			panic(fmt.Sprintf("mValue: field %d of %v is %q, node field is %q", i, v.Type(), refs[i].name, f.Name()))
+	switch {
+	case !v.IsValid():
+		for _, f := range fields {
+			g.kids = append(g.kids, mFieldD(f, reflect.Value{}, dyn))
 		}
-		g.kids = append(g.kids, mField(f, v.FieldByIndex(refs[i].index)))
+	case v.Kind() == reflect.Map:
+		// a Go map with string keys written to a group: one entry per field
+		for _, f := range fields {
+			g.kids = append(g.kids, mFieldD(f, v.MapIndex(reflect.ValueOf(f.Name()).Convert(v.Type().Key())), false))
+		}
+	default:
+		refs := structFieldRefs(v.Type(), nil)
+		if len(refs) != len(fields) {
+			panic(fmt.Sprintf("mValue: %v has %d fields, node has %d", v.Type(), len(refs), len(fields)))
+		}
+		byName := map[string][]int{}
+		for _, r := range refs {
+			byName[r.name] = r.index
+		}
+		for _, f := range fields {
+			idx, ok := byName[f.Name()]
+			if !ok {
+				panic(fmt.Sprintf("mValue: %v has no field for node field %q", v.Type(), f.Name()))
+			}
+			g.kids = append(g.kids, mFieldD(f, fieldByIndexNoAlloc(v, idx), false))
+		}
 	}
 	return g
+}
+
+// fieldByIndexNoAlloc is FieldByIndex through embedded pointers: the fields
+// below a nil embedded pointer read as invalid (null / zero)
+func fieldByIndexNoAlloc(v reflect.Value, idx []int) reflect.Value {
+	for k, i := range idx {
+		if k > 0 && v.Kind() == reflect.Pointer {
+			if v.IsNil() {
+				return reflect.Zero(v.Type().Elem().FieldByIndex(idx[k:]).Type)
+			}
+			v = v.Elem()
+		}
+		v = v.Field(i)
+	}
+	return v
 }
 
 // maxListLen is the fuel bound of the model's assembly loop
@@ -948,16 +1221,67 @@ func normEmpty(v reflect.Value) {
 	}
 }
 
+// deepCopy copies a value structurally (interface values keep their dynamic
+// types, nil and empty slices / maps stay distinct); the result is addressable.
 func deepCopy(v reflect.Value) reflect.Value {
-	b, err := json.Marshal(v.Interface())
-	if err != nil {
-		panic(err)
+	out := reflect.New(v.Type()).Elem()
+	copyInto(out, v)
+	return out
+}
+
+func copyInto(dst, src reflect.Value) {
+	switch src.Kind() {
+	case reflect.Pointer:
+		if src.IsNil() {
+			return
+		}
+		p := reflect.New(src.Type().Elem())
+		copyInto(p.Elem(), src.Elem())
+		dst.Set(p)
+	case reflect.Interface:
+		if src.IsNil() {
+			return
+		}
+		c := reflect.New(src.Elem().Type()).Elem()
+		copyInto(c, src.Elem())
+		dst.Set(c)
+	case reflect.Struct:
+		dst.Set(src) // unexported fields, time.Time
+		if _, ok := src.Interface().(time.Time); ok {
+			return
+		}
+		for i := 0; i < src.NumField(); i++ {
+			if dst.Field(i).CanSet() {
+				copyInto(dst.Field(i), src.Field(i))
+			}
+		}
+	case reflect.Slice:
+		if src.IsNil() {
+			return
+		}
+		c := reflect.MakeSlice(src.Type(), src.Len(), src.Len())
+		for i := 0; i < src.Len(); i++ {
+			copyInto(c.Index(i), src.Index(i))
+		}
+		dst.Set(c)
+	case reflect.Map:
+		if src.IsNil() {
+			return
+		}
+		c := reflect.MakeMapWithSize(src.Type(), src.Len())
+		for it := src.MapRange(); it.Next(); {
+			e := reflect.New(src.Type().Elem()).Elem()
+			copyInto(e, it.Value())
+			c.SetMapIndex(it.Key(), e)
+		}
+		dst.Set(c)
+	case reflect.Array:
+		for i := 0; i < src.Len(); i++ {
+			copyInto(dst.Index(i), src.Index(i))
+		}
+	default:
+		dst.Set(src)
 	}
-	out := reflect.New(v.Type())
-	if err := json.Unmarshal(b, out.Interface()); err != nil {
-		panic(err)
-	}
-	return out.Elem()
 }
 
 // ---------------------------------------------------------------------------
@@ -972,8 +1296,225 @@ type caseReplay struct {
 }
 
 func mkReplay(ct *cat, rows reflect.Value, split []int) caseReplay {
-	b, _ := json.Marshal(rows.Interface())
+	var b []byte
+	if ct.dyn {
+		b, _ = json.Marshal(encDyn(rows))
+	} else {
+		b, _ = json.Marshal(rows.Interface())
+	}
 	return caseReplay{Type: ct.name, Split: split, Rows: b}
+}
+
+// ---- typed codec of the replays of types with interface fields: an interface
+// value is {"$": <Go type>, "v": <value>}; everything else as encoding/json
+// does (pointers: null or the value; []byte and byte arrays: hex strings).
+
+var dynTypes = map[string]reflect.Type{}
+
+func regDyn(ts ...any) {
+	for _, x := range ts {
+		t := reflect.TypeOf(x)
+		dynTypes[t.String()] = t
+	}
+}
+
+func init() {
+	regDyn(false, int(0), int8(0), int16(0), int32(0), int64(0), uint(0), uint8(0), uint16(0), uint32(0), uint64(0),
+		float32(0), float64(0), "", []byte(nil), []any(nil), map[string]any(nil), map[string]string(nil),
+		[]int32(nil), []int64(nil), []string(nil), []float64(nil), []bool(nil), [][]byte(nil), []map[string]any(nil),
+		[4]byte{}, [16]byte{}, [12]byte{}, deprecated.Int96{}, time.Time{}, time.Duration(0),
+		(*int32)(nil), (*int64)(nil), (*string)(nil), (*bool)(nil), (*float64)(nil), (*[]any)(nil), (*map[string]any)(nil), json.RawMessage(nil))
+}
+
+func isByteSeq(t reflect.Type) bool {
+	return (t.Kind() == reflect.Slice || t.Kind() == reflect.Array) && t.Elem().Kind() == reflect.Uint8
+}
+
+func encDyn(v reflect.Value) any {
+	switch v.Kind() {
+	case reflect.Interface:
+		if v.IsNil() {
+			return nil
+		}
+		e := v.Elem()
+		if _, ok := dynTypes[e.Type().String()]; !ok {
+			dynTypes[e.Type().String()] = e.Type()
+		}
+		return map[string]any{"$": e.Type().String(), "v": encDyn(e)}
+	case reflect.Pointer:
+		if v.IsNil() {
+			return nil
+		}
+		return encDyn(v.Elem())
+	case reflect.Struct:
+		if t, ok := v.Interface().(time.Time); ok {
+			return t.Format(time.RFC3339Nano)
+		}
+		m := map[string]any{}
+		for i := 0; i < v.NumField(); i++ {
+			if v.Type().Field(i).IsExported() {
+				m[v.Type().Field(i).Name] = encDyn(v.Field(i))
+			}
+		}
+		return m
+	case reflect.Slice, reflect.Array:
+		if v.Kind() == reflect.Slice && v.IsNil() {
+			return nil
+		}
+		if isByteSeq(v.Type()) {
+			b := make([]byte, v.Len())
+			for i := range b {
+				b[i] = byte(v.Index(i).Uint())
+			}
+			return "x" + hex.EncodeToString(b)
+		}
+		out := make([]any, v.Len())
+		for i := range out {
+			out[i] = encDyn(v.Index(i))
+		}
+		return out
+	case reflect.Map:
+		if v.IsNil() {
+			return nil
+		}
+		m := map[string]any{}
+		for it := v.MapRange(); it.Next(); {
+			m[fmt.Sprint(it.Key().Interface())] = encDyn(it.Value())
+		}
+		return m
+	case reflect.Float32, reflect.Float64:
+		return strconv.FormatFloat(v.Float(), 'g', -1, 64)
+	case reflect.Int, reflect.Int8, reflect.Int16, reflect.Int32, reflect.Int64:
+		return strconv.FormatInt(v.Int(), 10)
+	case reflect.Uint, reflect.Uint8, reflect.Uint16, reflect.Uint32, reflect.Uint64:
+		return strconv.FormatUint(v.Uint(), 10)
+	}
+	return v.Interface()
+}
+
+func decDyn(dst reflect.Value, x any) error {
+	if x == nil {
+		return nil
+	}
+	switch dst.Kind() {
+	case reflect.Interface:
+		m, ok := x.(map[string]any)
+		if !ok {
+			return fmt.Errorf("interface value is not an object: %v", x)
+		}
+		name, _ := m["$"].(string)
+		t, ok := dynTypes[name]
+		if !ok {
+			return fmt.Errorf("unknown dynamic type %q", name)
+		}
+		e := reflect.New(t).Elem()
+		if err := decDyn(e, m["v"]); err != nil {
+			return err
+		}
+		dst.Set(e)
+	case reflect.Pointer:
+		p := reflect.New(dst.Type().Elem())
+		if err := decDyn(p.Elem(), x); err != nil {
+			return err
+		}
+		dst.Set(p)
+	case reflect.Struct:
+		if _, ok := dst.Interface().(time.Time); ok {
+			t, err := time.Parse(time.RFC3339Nano, x.(string))
+			if err != nil {
+				return err
+			}
+			dst.Set(reflect.ValueOf(t.UTC()))
+			return nil
+		}
+		m, ok := x.(map[string]any)
+		if !ok {
+			return fmt.Errorf("struct value is not an object")
+		}
+		for i := 0; i < dst.NumField(); i++ {
+			if dst.Type().Field(i).IsExported() {
+				if err := decDyn(dst.Field(i), m[dst.Type().Field(i).Name]); err != nil {
+					return err
+				}
+			}
+		}
+	case reflect.Slice, reflect.Array:
+		if isByteSeq(dst.Type()) {
+			s, _ := x.(string)
+			b, err := hex.DecodeString(strings.TrimPrefix(s, "x"))
+			if err != nil {
+				return err
+			}
+			if dst.Kind() == reflect.Slice {
+				dst.Set(reflect.MakeSlice(dst.Type(), len(b), len(b)))
+			}
+			for i := 0; i < len(b) && i < dst.Len(); i++ {
+				dst.Index(i).SetUint(uint64(b[i]))
+			}
+			return nil
+		}
+		l, ok := x.([]any)
+		if !ok {
+			return fmt.Errorf("slice value is not an array")
+		}
+		if dst.Kind() == reflect.Slice {
+			dst.Set(reflect.MakeSlice(dst.Type(), len(l), len(l)))
+		}
+		for i := 0; i < len(l) && i < dst.Len(); i++ {
+			if err := decDyn(dst.Index(i), l[i]); err != nil {
+				return err
+			}
+		}
+	case reflect.Map:
+		m, ok := x.(map[string]any)
+		if !ok {
+			return fmt.Errorf("map value is not an object")
+		}
+		out := reflect.MakeMap(dst.Type())
+		for k, e := range m {
+			kv := reflect.New(dst.Type().Key()).Elem()
+			switch kv.Kind() {
+			case reflect.String:
+				kv.SetString(k)
+			case reflect.Int, reflect.Int8, reflect.Int16, reflect.Int32, reflect.Int64:
+				n, _ := strconv.ParseInt(k, 10, 64)
+				kv.SetInt(n)
+			default:
+				return fmt.Errorf("map key kind %v", kv.Kind())
+			}
+			ev := reflect.New(dst.Type().Elem()).Elem()
+			if err := decDyn(ev, e); err != nil {
+				return err
+			}
+			out.SetMapIndex(kv, ev)
+		}
+		dst.Set(out)
+	case reflect.Float32, reflect.Float64:
+		f, err := strconv.ParseFloat(x.(string), 64)
+		if err != nil {
+			return err
+		}
+		dst.SetFloat(f)
+	case reflect.Int, reflect.Int8, reflect.Int16, reflect.Int32, reflect.Int64:
+		n, err := strconv.ParseInt(x.(string), 10, 64)
+		if err != nil {
+			return err
+		}
+		dst.SetInt(n)
+	case reflect.Uint, reflect.Uint8, reflect.Uint16, reflect.Uint32, reflect.Uint64:
+		n, err := strconv.ParseUint(x.(string), 10, 64)
+		if err != nil {
+			return err
+		}
+		dst.SetUint(n)
+	case reflect.Bool:
+		dst.SetBool(x.(bool))
+	case reflect.String:
+		dst.SetString(x.(string))
+	default:
+		return fmt.Errorf("unsupported kind %v", dst.Kind())
+	}
+	return nil
 }
 
 type vmCase struct {
@@ -1051,7 +1592,7 @@ func checkCase(c *core.Ctx, ct *cat, rows reflect.Value, split []int, wantVm boo
 	for i := 0; i < n; i++ {
 		mvals[i] = mValue(ct.schema, rows.Index(i))
 	}
-	if ok {
+	if ok && !ct.noRecon {
 		for i := 0; i < n; i++ {
 			back, err := func() (v reflect.Value, err error) {
 				defer func() {
@@ -1173,7 +1714,12 @@ func runCase(c *core.Ctx, ct *cat, rows reflect.Value, split []int, bucket strin
 	} else if wantVm {
 		checkCase(c, ct, rows, split, true)
 	}
-	key, _ := json.Marshal(rows.Interface())
+	var key []byte
+	if ct.dyn {
+		key, _ = json.Marshal(encDyn(rows))
+	} else {
+		key, _ = json.Marshal(rows.Interface())
+	}
 	c.Case(bucket, ct.name+fmt.Sprint(split)+string(key), rows.Len() >= 2)
 	return !failed
 }
@@ -1235,6 +1781,17 @@ func simplify(v reflect.Value, try func() bool) {
 		return false
 	}
 	switch v.Kind() {
+	case reflect.Interface:
+		if v.IsNil() {
+			return
+		}
+		if attempt(reflect.Zero(v.Type())) {
+			return
+		}
+		cp := reflect.New(v.Elem().Type()).Elem()
+		cp.Set(v.Elem())
+		simplify(cp, func() bool { v.Set(cp); return try() })
+		v.Set(cp)
 	case reflect.Pointer:
 		if v.IsNil() {
 			return
@@ -1283,7 +1840,21 @@ func simplify(v reflect.Value, try func() bool) {
 		if v.IsNil() {
 			return
 		}
-		attempt(reflect.Zero(v.Type()))
+		if attempt(reflect.Zero(v.Type())) {
+			return
+		}
+		for _, k := range v.MapKeys() {
+			old := v.MapIndex(k)
+			v.SetMapIndex(k, reflect.Value{})
+			if try() {
+				continue
+			}
+			cp := reflect.New(v.Type().Elem()).Elem()
+			cp.Set(old)
+			v.SetMapIndex(k, cp)
+			simplify(cp, func() bool { v.SetMapIndex(k, cp); return try() })
+			v.SetMapIndex(k, cp)
+		}
 	case reflect.String:
 		if v.Len() > 0 && !attempt(reflect.Zero(v.Type())) && v.Len() > 1 {
 			attempt(reflect.ValueOf("a").Convert(v.Type()))
@@ -1304,7 +1875,7 @@ func simplify(v reflect.Value, try func() bool) {
 			one.SetInt(1)
 			attempt(one)
 		}
-	case reflect.Uint, reflect.Uint8, reflect.Uint16, reflect.Uint32, reflect.Uint64:
+	case reflect.Uint, reflect.Uint8, reflect.Uint16, reflect.Uint32, reflect.Uint64, reflect.Uintptr:
 		if v.Uint() != 0 && !attempt(reflect.Zero(v.Type())) && v.Uint() != 1 {
 			one := reflect.New(v.Type()).Elem()
 			one.SetUint(1)
@@ -1411,38 +1982,115 @@ func (g *gen) nullish(path string) bool {
 var genStrings = []string{"a", "bc", "\x00", "héllo", "0", "zz", strings.Repeat("q", 40), " "}
 var genFloats = []float64{1.5, -2.25, math.Copysign(0, -1), 3e38, -1e-40, 1, 1e300, math.SmallestNonzeroFloat64}
 
-func (g *gen) fill(v reflect.Value, path string) {
+// fieldNode: the node of the struct field name below n (nil when n is unknown)
+func fieldNode(n parquet.Node, name string) parquet.Node {
+	if n == nil || n.Leaf() {
+		return nil
+	}
+	for _, f := range n.Fields() {
+		if f.Name() == name {
+			return f
+		}
+	}
+	return nil
+}
+
+func columnName(f reflect.StructField) (string, bool) {
+	name := f.Name
+	if tag, ok := f.Tag.Lookup("parquet"); ok {
+		head := tag
+		if k := strings.IndexByte(tag, ','); k >= 0 {
+			head = tag[:k]
+		}
+		if head == "-" && tag != "-," {
+			return "", false
+		}
+		if head != "" {
+			name = head
+		}
+	}
+	return name, true
+}
+
+func logicalOf(n parquet.Node) any {
+	if n == nil || !n.Leaf() {
+		return nil
+	}
+	if l := n.Type().LogicalType(); l != nil {
+		return l.Value
+	}
+	return nil
+}
+
+func (g *gen) fill(v reflect.Value, path string) { g.fillN(nil, v, path) }
+
+// fillN fills v; n is the schema node of v when the values are generated
+// along the schema (ct.nodeGen), nil otherwise
+func (g *gen) fillN(n parquet.Node, v reflect.Value, path string) {
 	g.budget--
 	switch v.Kind() {
+	case reflect.Interface:
+		if n != nil {
+			if x := g.anyFor(n, path, false); x.IsValid() {
+				v.Set(x)
+			}
+		}
 	case reflect.Pointer:
 		if g.nullish(path) {
 			return
 		}
 		p := reflect.New(v.Type().Elem())
-		g.fill(p.Elem(), path+"*")
+		g.fillN(n, p.Elem(), path+"*")
 		v.Set(p)
 	case reflect.Struct:
 		if _, ok := v.Interface().(time.Time); ok {
 			if !g.nullish(path) {
-				v.Set(reflect.ValueOf(time.Unix(int64(g.rng.Intn(2000000000)), int64(g.rng.Intn(1000000000))).UTC()))
+				sec := int64(g.rng.Intn(2000000000))
+				if g.ct.nodeGen && g.rng.Intn(4) == 0 {
+					sec = -sec // before 1970
+				}
+				v.Set(reflect.ValueOf(time.Unix(sec, int64(g.rng.Intn(1000000000))).UTC()))
 			}
 			return
 		}
 		for i := 0; i < v.NumField(); i++ {
+			sf := v.Type().Field(i)
 			if v.Field(i).CanSet() {
-				g.fill(v.Field(i), path+"."+v.Type().Field(i).Name)
+				fn := n
+				if !sf.Anonymous {
+					name, _ := columnName(sf)
+					fn = fieldNode(n, name)
+				}
+				g.fillN(fn, v.Field(i), path+"."+sf.Name)
+			} else if g.ct.nodeGen && v.Field(i).CanAddr() {
+				// unexported fields hold data as well: they must be ignored
+				switch sf.Type.Kind() {
+				case reflect.Bool, reflect.Int, reflect.Int8, reflect.Int16, reflect.Int32, reflect.Int64, reflect.Uint, reflect.Uint8, reflect.Uint16,
+					reflect.Uint32, reflect.Uint64, reflect.Float32, reflect.Float64, reflect.String:
+					g.fillScalar(reflect.NewAt(sf.Type, unsafe.Pointer(v.Field(i).UnsafeAddr())).Elem(), false)
+				}
 			}
 		}
 	case reflect.Slice:
 		if v.Type().Elem().Kind() == reflect.Uint8 {
 			if g.nullish(path) {
-				if g.rng.Intn(2) == 0 {
+				if g.rng.Intn(2) == 0 && (n == nil || n.Type().Kind() != parquet.FixedLenByteArray) {
 					v.Set(reflect.MakeSlice(v.Type(), 0, 0))
 				}
 				return
 			}
-			b := make([]byte, 1+g.rng.Intn(5))
-			g.rng.Read(b)
+			var b []byte
+			switch {
+			case v.Type() == reflect.TypeOf(json.RawMessage(nil)):
+				b = []byte(genJSON[g.rng.Intn(len(genJSON))])
+			case n != nil && n.Leaf() && n.Type().Kind() == parquet.FixedLenByteArray:
+				b = make([]byte, n.Type().Length())
+				g.rng.Read(b)
+				b[0] |= 1
+			default:
+				b = make([]byte, 1+g.rng.Intn(5))
+				g.rng.Read(b)
+			}
 			v.SetBytes(b)
 			return
 		}
@@ -1452,19 +2100,26 @@ func (g *gen) fill(v reflect.Value, path string) {
 			}
 			return
 		}
-		n := 1 + g.rng.Intn(4)
+		en := n
+		if n != nil && isListNode(n) {
+			en = n.Fields()[0].Fields()[0]
+		}
+		k := 1 + g.rng.Intn(4)
 		if g.ct.longLists && g.budget > 400 && g.rng.Intn(6) == 0 {
-			n = 60 + g.rng.Intn(90)
+			k = 60 + g.rng.Intn(90)
+		}
+		if g.ct.hugeLists && g.budget > 1500 && g.rng.Intn(12) == 0 {
+			k = 1025 + g.rng.Intn(200)
 		}
 		if g.budget < 0 {
-			n = 1
+			k = 1
 		}
-		s := reflect.MakeSlice(v.Type(), n, n)
-		flags := pattern(g.rng, n)
+		s := reflect.MakeSlice(v.Type(), k, k)
+		flags := pattern(g.rng, k)
 		old := g.cur
-		for i := 0; i < n; i++ {
+		for i := 0; i < k; i++ {
 			g.cur = flags[i]
-			g.fill(s.Index(i), path+"[]")
+			g.fillN(en, s.Index(i), path+"[]")
 		}
 		g.cur = old
 		v.Set(s)
@@ -1475,26 +2130,246 @@ func (g *gen) fill(v reflect.Value, path string) {
 			}
 			return
 		}
-		n := 1
-		if g.ct.multimap {
-			n = 1 + g.rng.Intn(4)
-		}
 		m := reflect.MakeMap(v.Type())
 		old := g.cur
-		for i := 0; i < n; i++ {
+		if n != nil && !n.Leaf() && !isMapNode(n) {
+			// a Go map written to a group: keys are the field names
+			for _, f := range n.Fields() {
+				if g.rng.Intn(5) == 0 && !f.Required() {
+					continue
+				}
+				e := reflect.New(v.Type().Elem()).Elem()
+				g.cur = g.rng.Intn(2) == 0
+				g.fillN(f, e, path+"."+f.Name())
+				m.SetMapIndex(reflect.ValueOf(f.Name()).Convert(v.Type().Key()), e)
+			}
+			g.cur = old
+			v.Set(m)
+			return
+		}
+		var kn, vn parquet.Node
+		if n != nil && isMapNode(n) {
+			for _, f := range n.Fields()[0].Fields() {
+				if f.Name() == "key" {
+					kn = f
+				} else {
+					vn = f
+				}
+			}
+		}
+		cnt := 1
+		if g.ct.multimap {
+			cnt = 1 + g.rng.Intn(4)
+		}
+		for i := 0; i < cnt; i++ {
 			k := reflect.New(v.Type().Key()).Elem()
 			g.cur = false
-			g.fillScalar(k, false)
+			if kn != nil {
+				g.modes[path+"{k}"] = 3
+				g.fillN(kn, k, path+"{k}")
+				if k.IsZero() {
+					g.fillScalar(k, false)
+				}
+			} else {
+				g.fillScalar(k, false)
+			}
 			e := reflect.New(v.Type().Elem()).Elem()
 			g.cur = g.rng.Intn(2) == 0
-			g.fill(e, path+"{}")
+			g.fillN(vn, e, path+"{}")
 			m.SetMapIndex(k, e)
 		}
 		g.cur = old
 		v.Set(m)
+	case reflect.String:
+		zero := g.nullish(path)
+		if v.Type() == reflect.TypeOf(json.Number("")) {
+			if !zero {
+				v.SetString(genNumbers[g.rng.Intn(len(genNumbers))])
+			}
+			return
+		}
+		if _, ok := logicalOf(n).(*format.UUIDType); ok {
+			if !zero {
+				var u uuid.UUID
+				g.rng.Read(u[:])
+				v.SetString(u.String())
+			}
+			return
+		}
+		g.fillScalar(v, zero)
 	default:
 		g.fillScalar(v, g.nullish(path))
 	}
+}
+
+var genNumbers = []string{"0", "1", "-1", "1.5", "1e3", "123456789012", "-0.25"}
+var genJSON = []string{`{"a":1}`, `[1,2,3]`, `"s"`, `1.5`, `true`, `{"k":{"n":null}}`, `{}`, `[]`, `0`, `""`}
+
+// anyFor generates the dynamic value of an interface-typed field for node n
+// (invalid = nil interface); elem: the value is one element of the repeated n
+func (g *gen) anyFor(n parquet.Node, path string, elem bool) reflect.Value {
+	g.budget--
+	switch {
+	case !elem && n.Optional():
+		if g.nullish(path) {
+			return reflect.Value{}
+		}
+	case !elem && n.Repeated():
+		if g.nullish(path) {
+			if g.rng.Intn(2) == 0 {
+				return reflect.ValueOf([]any{})
+			}
+			return reflect.Value{}
+		}
+		k := 1 + g.rng.Intn(4)
+		if g.ct.longLists && g.budget > 400 && g.rng.Intn(6) == 0 {
+			k = 60 + g.rng.Intn(90)
+		}
+		if g.budget < 0 {
+			k = 1
+		}
+		flags := pattern(g.rng, k)
+		old := g.cur
+		out := make([]any, k)
+		for i := range out {
+			g.cur = flags[i]
+			if x := g.anyFor(n, path+"[]", true); x.IsValid() {
+				out[i] = x.Interface()
+			}
+		}
+		g.cur = old
+		return g.styled(reflect.ValueOf(out), n)
+	}
+	// a present value of node n
+	switch {
+	case isVariantNode(n):
+		return reflect.ValueOf(genVariant[g.rng.Intn(len(genVariant))])
+	case n.Leaf():
+		return g.anyLeaf(n, path)
+	case isListNode(n):
+		en := n.Fields()[0].Fields()[0]
+		if g.nullish(path + "()") {
+			if g.rng.Intn(2) == 0 || elem || n.Optional() {
+				return reflect.ValueOf([]any{})
+			}
+			return reflect.Value{}
+		}
+		k := 1 + g.rng.Intn(4)
+		if g.budget < 0 {
+			k = 1
+		}
+		flags := pattern(g.rng, k)
+		old := g.cur
+		out := make([]any, k)
+		for i := range out {
+			g.cur = flags[i]
+			if x := g.anyFor(en, path+"()", false); x.IsValid() {
+				out[i] = x.Interface()
+			}
+		}
+		g.cur = old
+		return reflect.ValueOf(out)
+	case isMapNode(n):
+		var vn parquet.Node
+		for _, f := range n.Fields()[0].Fields() {
+			if f.Name() != "key" {
+				vn = f
+			}
+		}
+		m := map[string]any{}
+		if !g.nullish(path + "{}") {
+			old := g.cur
+			g.cur = g.rng.Intn(2) == 0
+			if x := g.anyFor(vn, path+"{}", false); x.IsValid() {
+				m[genStrings[g.rng.Intn(len(genStrings))]] = x.Interface()
+			} else {
+				m[genStrings[g.rng.Intn(len(genStrings))]] = nil
+			}
+			g.cur = old
+		}
+		return reflect.ValueOf(m)
+	default:
+		m := map[string]any{}
+		for _, f := range n.Fields() {
+			x := g.anyFor(f, path+"."+f.Name(), false)
+			if x.IsValid() {
+				m[f.Name()] = x.Interface()
+			} else if g.rng.Intn(2) == 0 {
+				m[f.Name()] = nil
+			}
+		}
+		return reflect.ValueOf(m)
+	}
+}
+
+var genVariant = []any{nil, true, int64(7), "v", 1.5, map[string]any{"k": int64(1)}, []any{int64(1), "x"}, int32(-3), false, ""}
+
+// styled: now and then a typed slice instead of []any
+func (g *gen) styled(v reflect.Value, n parquet.Node) reflect.Value {
+	if !n.Leaf() || g.rng.Intn(4) != 0 {
+		return v
+	}
+	l := v.Interface().([]any)
+	if len(l) == 0 || l[0] == nil {
+		return v
+	}
+	t := reflect.TypeOf(l[0])
+	out := reflect.MakeSlice(reflect.SliceOf(t), len(l), len(l))
+	for i, x := range l {
+		if x == nil || reflect.TypeOf(x) != t {
+			return v
+		}
+		out.Index(i).Set(reflect.ValueOf(x))
+	}
+	return out
+}
+
+// anyLeaf: a Go value of the natural type of the leaf, zero values included
+func (g *gen) anyLeaf(n parquet.Node, path string) reflect.Value {
+	zero := g.rng.Intn(4) == 0
+	mk := func(x any) reflect.Value {
+		v := reflect.New(reflect.TypeOf(x)).Elem()
+		g.fillScalar(v, zero)
+		return v
+	}
+	switch n.Type().Kind() {
+	case parquet.Boolean:
+		return mk(false)
+	case parquet.Int32:
+		return mk(int32(0))
+	case parquet.Int64:
+		if g.rng.Intn(3) == 0 {
+			return mk(int(0))
+		}
+		return mk(int64(0))
+	case parquet.Float:
+		return mk(float32(0))
+	case parquet.Double:
+		return mk(float64(0))
+	case parquet.ByteArray:
+		if g.rng.Intn(3) == 0 {
+			b := make([]byte, g.rng.Intn(4))
+			g.rng.Read(b)
+			return reflect.ValueOf(b)
+		}
+		return mk("")
+	case parquet.FixedLenByteArray:
+		a := reflect.New(reflect.ArrayOf(n.Type().Length(), reflect.TypeOf(byte(0)))).Elem()
+		g.fillScalar(a, zero)
+		if g.rng.Intn(3) == 0 {
+			b := make([]byte, a.Len())
+			reflect.Copy(reflect.ValueOf(b), a)
+			return reflect.ValueOf(b)
+		}
+		return a
+	case parquet.Int96:
+		var x deprecated.Int96
+		if !zero {
+			x = deprecated.Int96{uint32(g.rng.Int63()), uint32(g.rng.Int63()), uint32(g.rng.Int63())}
+		}
+		return reflect.ValueOf(x)
+	}
+	panic("anyLeaf: " + n.Type().String())
 }
 
 func (g *gen) fillScalar(v reflect.Value, zero bool) {
@@ -1529,7 +2404,7 @@ func (g *gen) fillScalar(v reflect.Value, zero bool) {
 			}
 		}
 		v.SetInt(x)
-	case reflect.Uint, reflect.Uint8, reflect.Uint16, reflect.Uint32, reflect.Uint64:
+	case reflect.Uint, reflect.Uint8, reflect.Uint16, reflect.Uint32, reflect.Uint64, reflect.Uintptr:
 		bits := v.Type().Bits()
 		var x uint64
 		switch g.rng.Intn(4) {
@@ -1570,9 +2445,16 @@ func genBatch(rng *rand.Rand, ct *cat, n int) reflect.Value {
 	g := &gen{rng: rng, ct: ct, modes: map[string]int{}, budget: 6000}
 	rows := reflect.MakeSlice(reflect.SliceOf(ct.typ), n, n)
 	flags := pattern(rng, n)
+	var root parquet.Node
+	if ct.nodeGen {
+		root = ct.schema
+	}
 	for i := 0; i < n; i++ {
 		g.cur = flags[i]
-		g.fill(rows.Index(i), "")
+		if i > 0 && i%256 == 0 && g.budget < 3000 {
+			g.budget = 3000 // big batches: every stretch of rows may hold lists
+		}
+		g.fillN(root, rows.Index(i), "")
 	}
 	return rows
 }
@@ -1602,7 +2484,17 @@ func randSplit(rng *rand.Rand, n int) []int {
 func runC03(c *core.Ctx) {
 	c.Res.Rule = "catalogue of compiled struct types (required / `optional` scalars of every kind, pointers, repeated and LIST slices, nested lists, slices and maps of structs, embedded and nested structs, optional groups with repeated fields and vice versa, 3 levels of nesting) x generated batches: every nullable site (pointer, zero-able scalar, slice, map) follows, inverts or ignores a per-row (and per-element) run pattern with runs of 1..130 crossing 64-row words; batch sizes 1..200; each batch goes through the nine ingestion paths (whole batch or split into several Write calls; the typed and the reflection buffer additionally with the rows reversed through Swap before reading); predicate: identical (column, value, r, d) sequences per row on every path, Reconstruct(Deconstruct(v)) = v up to nil/empty; correspondence: Deconstruct streams = model shred_rows (= model shred_batch), model asm of the streams = the value. Plus the null-run sweep: single-word patterns with <= 3 runs at every in-word offset through the typed path on optional fields of every null-index kernel, compared with the pattern and with the model's scan. A case = (type, batch, split); non-trivial = at least 2 rows; distinct by type + JSON of the batch."
 	t0 := time.Now()
-	cats := catalogue()
+	var cats []*cat
+	for _, ct := range catalogue() {
+		if ct.broken != "" {
+			c.Violation("schema-panic:"+ct.name, fmt.Sprintf("type %s: building the schema / the catalogue entry panicked: %s", ct.name, ct.broken), ct.name)
+			continue
+		}
+		if only := os.Getenv("C03_ONLY"); only != "" && !strings.Contains(","+only+",", ","+ct.name+",") {
+			continue
+		}
+		cats = append(cats, ct)
+	}
 	byName := map[string]*cat{}
 	for _, ct := range cats {
 		byName[ct.name] = ct
@@ -1619,15 +2511,36 @@ func runC03(c *core.Ctx) {
 
 	corpus(c, byName)
 
+	// which path GenericWriter[T] takes, per type
+	{
+		var typed, refl []string
+		for _, ct := range cats {
+			if !ct.explicit {
+				continue
+			}
+			if ct.typedW {
+				typed = append(typed, ct.name)
+			} else {
+				refl = append(refl, ct.name)
+			}
+		}
+		c.Note("%d catalogue types; %d written with SchemaOf(T) (GenericWriter[T], GenericWriter[*T], GenericBuffer[T], GenericBuffer[*T]: typed path writeRowsFuncOf); %d with an explicit schema handed to every constructor: GenericBuffer[T]/[*T] always take the typed path on the explicit schema; GenericWriter[T]/[*T] take the typed path for the %d whose schema equals SchemaOf(T) [%s] and the reflection value writer (writeValueFuncOf) for the other %d [%s]",
+			len(cats), len(cats)-len(typed)-len(refl), len(typed)+len(refl), len(typed), strings.Join(typed, " "), len(refl), strings.Join(refl, " "))
+	}
+
 	// generated batches
 	sizes := []int{1, 2, 3, 5, 8, 9, 15, 16, 17, 33, 63, 64, 65, 66, 100, 127, 128, 129, 130, 131, 192, 200}
-	perType := c.N(30, 0)
+	bigSizes := []int{513, 600, 1025, 1100, 1300}
 	for ti, ct := range cats {
 		rng := rand.New(rand.NewSource(c.Rng.Int63()))
 		if tooManyHangs(c) {
 			break
 		}
 		if c.Quick() {
+			perType := c.N(12, 0)
+			if ct.perType > 0 {
+				perType = ct.perType
+			}
 			for k := 0; k < perType && !tooManyHangs(c); k++ {
 				n := sizes[(k*7+ti*3)%len(sizes)]
 				if k%3 == 2 {
@@ -1639,6 +2552,9 @@ func runC03(c *core.Ctx) {
 					c.Sample(mkReplay(ct, rows.Slice(0, min(2, n)), nil))
 				}
 			}
+			// one Write call of more than 512 / more than 1024 rows
+			n := bigSizes[(ti+int(c.Seed))%len(bigSizes)]
+			runCase(c, ct, genBatch(rng, ct, n), nil, "big/"+ct.name, false)
 		} else {
 			for n := 1; n <= 200 && !tooManyHangs(c); n++ {
 				rows := genBatch(rng, ct, n)
@@ -1649,14 +2565,22 @@ func runC03(c *core.Ctx) {
 				rows := genBatch(rng, ct, n)
 				runCase(c, ct, rows, randSplit(rng, n), "gen/"+ct.name, false)
 			}
+			for _, n := range bigSizes {
+				runCase(c, ct, genBatch(rng, ct, n), nil, "big/"+ct.name, false)
+				runCase(c, ct, genBatch(rng, ct, n+rng.Intn(100)), []int{n - 1}, "big/"+ct.name, false)
+			}
 		}
 	}
 	if !c.Quick() {
-		c.Note("every batch size 1..200 for every catalogue type (%d types)", len(cats))
+		c.Note("every batch size 1..200 for every catalogue type (%d types), and single Write calls of 513, 600, 1025, 1100 and 1300 rows", len(cats))
+	} else {
+		c.Note("every catalogue type also with one Write call of 513..1300 rows")
 	}
 
 	t1 := time.Now()
-	runSweep(c)
+	if os.Getenv("C03_NOSWEEP") == "" { // debugging aid only
+		runSweep(c)
+	}
 	c.Note("wall time: catalogue batches %.1fs, null-run sweep %.1fs", t1.Sub(t0).Seconds(), time.Since(t1).Seconds())
 	writeVm(c)
 }
@@ -1683,7 +2607,23 @@ func replayC03(c *core.Ctx, raw json.RawMessage) {
 	for _, ct := range catalogue() {
 		if ct.name == r.Type {
 			rows := reflect.New(reflect.SliceOf(ct.typ))
-			if err := json.Unmarshal(r.Rows, rows.Interface()); err != nil {
+			var err error
+			if ct.dyn {
+				var x any
+				if err = json.Unmarshal(r.Rows, &x); err == nil {
+					err = func() (err error) {
+						defer func() {
+							if r := recover(); r != nil {
+								err = fmt.Errorf("%v", r)
+							}
+						}()
+						return decDyn(rows.Elem(), x)
+					}()
+				}
+			} else {
+				err = json.Unmarshal(r.Rows, rows.Interface())
+			}
+			if err != nil {
 				c.Note("replay rows do not decode: %v", err)
 				return
 			}
